@@ -25,7 +25,9 @@ CHECKS = {
               "steps, Recover operator) is model-checked exhaustively for CrashSafe / StepProperty / ReadsLikeMap incl. crashes inside "
               "recovery; whole sessions of the real database run under strace -f and after every completed file-system-mutating syscall "
               "of any thread the directory image is rebuilt and the real Open + Get of every key runs on it; TLC (CrashJudge.tla) judges "
-              "each crash point against the acknowledged / in-flight operations recorded in the same totally ordered log."),
+              "each crash point against the acknowledged / in-flight operations recorded in the same totally ordered log, validates the "
+              "syscall sequence as enabled steps of the disk protocol (DiskProtoTrace.tla) and evaluates the specification's RecMap / OpenFails "
+              "on the decoded content of every image, which must equal what the real recovery produced (DiskImageTrace.tla)."),
         design_ref="§5 C02, §4.4",
         note="kill -9 model (completed syscalls persist, a syscall is atomic); needs ptrace; one schedule per recorded session",
         technique="TLA+ disk-protocol spec + TLC exhaustive crash exploration; strace crash-image enumeration of the real code judged by TLC",
@@ -35,7 +37,8 @@ CHECKS = {
         text=("SimpleDBDisk.tla keeps Crash enabled inside recovery (nested, MaxCrash=2) and requires the recoverable map to stay constant "
               "along recovery steps; on the real code the Open of representative level-1 crash images runs under strace, every syscall "
               "boundary inside it (plus other unlink orders inside RemoveAll) yields a level-2 image, the real recovery completes on each and "
-              "TLC requires the map of the uninterrupted recovery."),
+              "TLC requires the map of the uninterrupted recovery, the recorded recovery to be enabled protocol steps, and the real result to "
+              "equal the specification's RecMap on every decoded level-2 image (DiskImageTrace.tla)."),
         design_ref="§5 C10",
         note="depth two on the real code, deeper only on the model; representatives chosen per abstract disk class",
         technique="TLA+ spec + TLC exhaustive nested crashes; nested strace crash-image enumeration judged by TLC",
@@ -44,7 +47,7 @@ CHECKS = {
         category="model_checking",
         text=("As C02 with the asynchronous WAL: CrashJudge.tla requires the recovered map to equal the reference map after some prefix of "
               "the applied sequence that contains the last WAL rotation; sessions include > 4 MiB of incompressible log so that buffer "
-              "flushes cut records, and 0 / 1 / many rotations."),
+              "flushes cut records, and 0 / 1 / many rotations; RecMap of the specification on every decoded image = real recovery."),
         design_ref="§5 C13",
         note="kill -9 model; applied order = order of the put/del hook events taken under the write lock",
         technique="TLA+ spec (prefix semantics) + strace crash-image enumeration of the real code judged by TLC",
